@@ -43,10 +43,16 @@ def deep_tuple(x):
 
 
 def replay(machine, init_name, hist):
+    """Re-establish a state.  machine.light is True while the prefix runs (a machine may skip
+    oracle-only work there; model updates must be identical)."""
     make = dict(machine.initial())[init_name]
     impl, model = make()
-    for op in hist:
-        impl, model = machine.step(impl, model, deep_tuple(op))
+    machine.light = True
+    try:
+        for op in hist:
+            impl, model = machine.step(impl, model, deep_tuple(op))
+    finally:
+        machine.light = False
     return impl, model
 
 
